@@ -110,6 +110,56 @@ mut("c20-hash-order-dependent-else", "C20",
     "    def _generate_equal_check(self, on_value):\n        return f\"inval == {(ord(on_value) + (1 if hash(str(on_value) * 3) % 97 == 0 else 0)) & 255} /* {on_value!r} */\"")
 
 
+# ---- benign changes: behaviour-preserving edits that change the emitted C noticeably.  No check may raise an alarm.
+BENIGN = []
+
+
+def benign(name, old, new):
+    BENIGN.append({"name": name, "old": old, "new": new})
+
+
+benign("benign-reverse-state-numbering",
+       "        # verify correctness of DFA\n        self._verify_fallthrough_loop()",
+       "        # verify correctness of DFA\n        self._verify_fallthrough_loop()\n        self.dfa.states.reverse()")
+benign("benign-reverse-if-arm-order",
+       "        for j, transition in enumerate((x for x in state.transitions if x != actual_else_transition)):",
+       "        for j, transition in enumerate(reversed([x for x in state.transitions if x != actual_else_transition])):")
+benign("benign-wider-state-and-padding",
+       '            contents.add(self._integer_containing(len(self.dfa.states), signed=False), "state;")',
+       '            contents.add("uint32_t reserved_pad[3];")\n            contents.add("uint32_t", "state;")')
+benign("benign-range-check-as-subtraction",
+       'return f"({ord(min_cpoint)} <= inval && inval <= {ord(max_cpoint)} /* {repr(min_cpoint)} - {repr(max_cpoint)} */)"',
+       'return f"((uint8_t)(inval - {ord(min_cpoint)}) <= {ord(max_cpoint) - ord(min_cpoint)} /* {repr(min_cpoint)} - {repr(max_cpoint)} */)"')
+benign("benign-start-zeroes-scalars",
+       '            # Set starting state\n            contents.add("// set starting state")',
+       '            for out_expr in self.state_object_spec:\n                if not out_expr.holds_buflike() and out_expr.default_value is None and out_expr.type != OutputStorageType.ENUM:\n                    contents.add(f"state->c.{out_expr.name} = 0;")\n            # Set starting state\n            contents.add("// set starting state")')
+
+
+def run_benign(b, props=("C02", "C03", "C04", "C10", "C12", "C17", "C20")):
+    src = open(os.path.join(REPO, "nmfu.py")).read()
+    if src.count(b["old"]) < 1:
+        return {"name": b["name"], "status": "NOT-APPLICABLE (pattern not found)"}
+    tree = tempfile.mkdtemp(prefix="nmfuben_")
+    try:
+        open(os.path.join(tree, "nmfu.py"), "w").write(src.replace(b["old"], b["new"]))
+        shutil.copytree(os.path.join(REPO, "example"), os.path.join(tree, "example"))
+        shutil.copytree(os.path.join(REPO, "docs"), os.path.join(tree, "docs"))
+        shutil.copytree(os.path.join(REPO, "tests"), os.path.join(tree, "tests"))
+        res = {"name": b["name"], "alarms": []}
+        for prop in props:
+            env = dict(os.environ)
+            env["NMFU_VERIF_OUT"] = os.path.join(tree, "out")
+            p = subprocess.run([os.path.join(VERIF, "check"), prop, "--tier", "quick", "--tree", tree], capture_output=True, text=True, env=env)
+            viol = [l for l in p.stdout.splitlines() if l.startswith("violation:") or l.startswith("HARNESS") or l.startswith("INSUFF")]
+            res[prop] = p.returncode
+            if p.returncode != 0:
+                res["alarms"].append((prop, viol[0][:300] if viol else p.stdout.strip().splitlines()[-1][:300]))
+        res["status"] = "QUIET" if not res["alarms"] else "FALSE-ALARM"
+        return res
+    finally:
+        shutil.rmtree(tree, ignore_errors=True)
+
+
 def run_one(m, tier="quick", keep=False):
     src = open(os.path.join(REPO, "nmfu.py")).read()
     if src.count(m["old"]) < 1:
@@ -137,6 +187,18 @@ def run_one(m, tier="quick", keep=False):
 
 def main():
     args = [a for a in sys.argv[1:] if not a.startswith("--")]
+    if "--benign" in sys.argv:
+        bad = []
+        for b in BENIGN:
+            if args and b["name"] not in args:
+                continue
+            r = run_benign(b)
+            print(json.dumps(r))
+            sys.stdout.flush()
+            if r["status"] == "FALSE-ALARM":
+                bad.append(b["name"])
+        print("benign changes: false alarms on %s" % bad)
+        return 1 if bad else 0
     if "--list" in sys.argv:
         for m in M:
             print(m["name"], m["prop"], m["extra"])
